@@ -189,7 +189,8 @@ theorem allocClusterFs_gsC {C : Nat → List Nat → Prop}
       match fs.fsInfo.free with
       | some 0 => Prog.fail Err.panic
       | _ =>
-        Prog.setFs { fs with fsInfo := ({ fs.fsInfo with next := some (c + 1), dirty := true }).mapFree (· - 1) }
+        let nextFree := if c + 1 < fs.totalClusters + 2 then c + 1 else 2
+        Prog.setFs { fs with fsInfo := ({ fs.fsInfo with next := some nextFree, dirty := true }).mapFree (· - 1) }
         pure c) (fun _ => True) := by
     refine GS.bind GS.getFs (fun fs2 hfs2 => ?_)
     split
